@@ -114,7 +114,7 @@ def program_sets(which):
     if which in ("findings", "all"):
         import tests
         out += [(pid, text, {}) for pid, text in corpus.finding_programs()]
-        out += [(pid, text, {}) for pid, text in corpus.layout_programs()]
+        out += [(pid, text, {}) for pid, text in corpus.layout_programs() if pid != "det-escaped-keys"]   # escaped key literals: carried as written in IR and samples, unescaped by Python
         out += tests.witness_programs()
     return out
 
